@@ -16,11 +16,26 @@ type sig struct {
 	// TaintedOuts: outputs whose value is (built from) the merged outputs
 	// of a mapped call.
 	TaintedOuts map[string]bool
+	// AllDep[q]: every stage call inside (transitively) has an argument that
+	// depends on input q.  A pipeline is only mapped over a collection sized
+	// at run time through such an input: a stage that does not depend on the
+	// mapped element still runs when the collection is empty and its outputs
+	// merge schedule-dependently (recorded findings).
+	AllDep map[string]bool
 	// ConstOuts: some output is bound to a constant.  Mapping such a pipeline
 	// over a collection sized at run time inside another mapped pipeline
 	// loses the copies (recorded finding), so the main stream only maps it
 	// over literal collections.
 	ConstOuts bool
+	// HasKeyedMap: contains (transitively) a call mapped over a typed map.
+	// Such a pipeline cannot be mapped over a typed map: its outputs would
+	// be a map of maps, which is not a type (the compiler rejects it).
+	HasKeyedMap bool
+	// NullableOuts: outputs that are null when a call inside is disabled at
+	// run time.  The runtime refuses a disabled modifier bound to null
+	// ("disabled is bound to a null value, which the compiler should not
+	// allow"), so such values are never bound to bool parameters.
+	NullableOuts map[string]bool
 }
 
 // A source is tainted when its value is (built from) the merged outputs of
@@ -32,10 +47,14 @@ type src struct {
 	E       *Exp
 	T       *Ty
 	Tainted bool
+	// Params: the inputs of the enclosing pipeline this value depends on.
+	Params map[string]bool
 	// NoSplit: output of a sub-pipeline call with a disabled modifier; a
 	// mapped call over it makes mrp panic (recorded finding), so it is not
 	// used as a split source in the main stream.
 	NoSplit bool
+	// Nullable: output of a call with a disabled modifier (or derived from one)
+	Nullable bool
 }
 
 // Opts tunes the shape grammar.
@@ -44,15 +63,44 @@ type Opts struct {
 	Disabled    bool // allow disabled modifiers
 	MapCalls    bool
 	SplitStages bool
+	Preflight   bool // pipelines may start with a preflight call
+	NestedMaps  bool // a pipeline containing mapped calls may itself be mapped
+	EmptyOuts   bool // stages may return empty collections
+	FreeNested  bool // no restriction on what is bound into pipelines that contain mapped calls
 	NullOuts    bool // stages may return null for an output
 	Files       bool
 }
 
 func DefaultOpts() Opts {
-	return Opts{MaxDepth: 3, Disabled: true, MapCalls: true, SplitStages: true, NullOuts: true}
+	return Opts{MaxDepth: 3, Disabled: true, MapCalls: true, SplitStages: true, NullOuts: true, Preflight: true,
+		NestedMaps: true, EmptyOuts: true}
+}
+
+// TameNested and WildFlat partition the shape space: nested mapped calls
+// combined with collections that are empty or null at run time, or with
+// run-time disabling, hit a family of recorded runtime defects (DESIGN.md
+// section 7, corpus/known); each feature is exercised on its own side.
+func TameNested() Opts {
+	o := DefaultOpts()
+	o.Disabled, o.NullOuts, o.EmptyOuts = false, false, false
+	return o
+}
+
+// WildNested: everything at once.
+func WildNested() Opts {
+	o := DefaultOpts()
+	o.FreeNested = true
+	return o
+}
+
+func WildFlat() Opts {
+	o := DefaultOpts()
+	o.NestedMaps = false
+	return o
 }
 
 type G struct {
+	pfStage string // name of the preflight stage of this program ("" = none)
 	// noTaint: expFor must not use tainted sources (set while binding the
 	// inputs of a callable that contains mapped calls)
 	noTaint  bool
@@ -224,7 +272,7 @@ func (g *G) withProjections(s src, depth int) []src {
 		}
 		e := *s.E
 		e.Path = append(append([]string(nil), s.E.Path...), f.Name)
-		out = append(out, g.withProjections(src{&e, ft, s.Tainted, s.NoSplit}, depth-1)...)
+		out = append(out, g.withProjections(src{E: &e, T: ft, Tainted: s.Tainted, NoSplit: s.NoSplit, Nullable: s.Nullable, Params: s.Params}, depth-1)...)
 	}
 	return out
 }
@@ -233,7 +281,7 @@ func (g *G) withProjections(s src, depth int) []src {
 func (g *G) expFor(t *Ty, srcs []src, depth int) *Exp {
 	var cands []src
 	for _, s := range srcs {
-		if g.assignable(t, s.T) && !(g.noTaint && s.Tainted) {
+		if g.assignable(t, s.T) && !(g.noTaint && s.Tainted) && !(s.Nullable && baseBool(t)) {
 			cands = append(cands, s)
 		}
 	}
@@ -322,7 +370,11 @@ func (g *G) sexpFor(t *Ty, args []Field, chunkOut *Field, depth int) *SExp {
 		switch t.K {
 		case "arr":
 			e := &SExp{K: "arr"}
-			for i, n := 0, g.r.Intn(4); i < n; i++ {
+			n := g.r.Intn(4)
+			if !g.o.EmptyOuts && n == 0 {
+				n = 1
+			}
+			for i := 0; i < n; i++ {
 				if i == 0 && n > 1 && g.o.NullOuts && g.r.Intn(3) == 0 {
 					// a null first element followed by real ones
 					e.Items = append(e.Items, &SExp{K: "lit", Lit: hx.JNull()})
@@ -334,7 +386,11 @@ func (g *G) sexpFor(t *Ty, args []Field, chunkOut *Field, depth int) *SExp {
 			return e
 		case "tmap":
 			e := &SExp{K: "obj"}
-			for i, n := 0, g.r.Intn(4); i < n; i++ {
+			n := g.r.Intn(4)
+			if !g.o.EmptyOuts && n == 0 {
+				n = 1
+			}
+			for i := 0; i < n; i++ {
 				e.Keys = append(e.Keys, fmt.Sprintf("k%d", i))
 				e.Items = append(e.Items, g.sexpFor(t.Elem, args, nil, depth+1))
 			}
@@ -347,6 +403,10 @@ func (g *G) sexpFor(t *Ty, args []Field, chunkOut *Field, depth int) *SExp {
 			}
 			return e
 		}
+	}
+	if !g.o.EmptyOuts {
+		g.nonEmpty = true
+		defer func() { g.nonEmpty = false }()
 	}
 	return &SExp{K: "lit", Lit: g.randValue(t, 1)}
 }
@@ -450,7 +510,7 @@ func wrapTy(t *Ty, mode string) *Ty {
 
 func (g *G) genPipeline(name string, callables []sig) (*Pipeline, sig) {
 	p := &Pipeline{Name: name}
-	me := sig{Name: name, TaintedOuts: map[string]bool{}}
+	me := sig{Name: name, TaintedOuts: map[string]bool{}, NullableOuts: map[string]bool{}}
 	for i, n := 0, 1+g.r.Intn(3); i < n; i++ {
 		p.Ins = append(p.Ins, Field{fmt.Sprintf("p%d", i), g.randType()})
 	}
@@ -459,8 +519,29 @@ func (g *G) genPipeline(name string, callables []sig) (*Pipeline, sig) {
 	}
 	var srcs []src
 	for _, f := range p.Ins {
-		srcs = append(srcs, g.withProjections(src{&Exp{K: "ref", Src: "self", Out: f.Name}, f.T, false, false}, 2)...)
+		srcs = append(srcs, g.withProjections(src{E: &Exp{K: "ref", Src: "self", Out: f.Name}, T: f.T,
+			Params: map[string]bool{f.Name: true}}, 2)...)
 	}
+	var pfUses *Exp
+	hasPf := false
+	if g.o.Preflight && g.pfStage != "" && g.r.Intn(2) == 0 {
+		hasPf = true
+		// a preflight call: inputs may only be literals or pipeline inputs
+		var e *Exp
+		for _, f := range p.Ins {
+			if f.T.K == "int" && g.r.Bool() {
+				e = &Exp{K: "ref", Src: "self", Out: f.Name}
+			}
+		}
+		if e == nil {
+			e = Lit(hx.JInt(g.uniq()))
+		}
+		p.Calls = append(p.Calls, &Call{ID: g.pfStage, Callee: g.pfStage, Preflight: true,
+			Binds: []Bind{{Param: "x", E: e}}})
+		g.Stats["preflight_call"]++
+		pfUses = e
+	}
+	allDepBroken := map[string]bool{}
 	usedCallee := map[string]int{}
 	ncalls := 1 + g.r.Intn(4)
 	for ci := 0; ci < ncalls; ci++ {
@@ -473,10 +554,10 @@ func (g *G) genPipeline(name string, callables []sig) (*Pipeline, sig) {
 		}
 		// binding the inputs of a callable that contains mapped calls: no
 		// tainted sources, no empty literal collections (see type src)
-		g.noTaint, g.nonEmpty = callee.HasMap, callee.HasMap
-		if g.o.MapCalls && g.r.Intn(5) < 2 {
+		g.noTaint, g.nonEmpty = callee.HasMap && !g.o.FreeNested, callee.HasMap && !g.o.FreeNested
+		if g.o.MapCalls && g.r.Intn(5) < 2 && (g.o.NestedMaps || !callee.HasMap) {
 			c.Mapped = "arr"
-			if g.r.Intn(3) == 0 {
+			if g.r.Intn(3) == 0 && !callee.HasKeyedMap {
 				c.Mapped = "map"
 				for _, o := range callee.Outs {
 					if hasMap(o.T) {
@@ -502,7 +583,7 @@ func (g *G) genPipeline(name string, callables []sig) (*Pipeline, sig) {
 				var cands []src
 				if wantSplit && !usedRefSplit && nsplit == 0 {
 					for _, s := range srcs {
-						if g.assignable(ct, s.T) && !(g.noTaint && s.Tainted) && !s.NoSplit {
+						if g.assignable(ct, s.T) && !(g.noTaint && s.Tainted) && !s.NoSplit && !(s.Nullable && baseBool(ct)) {
 							cands = append(cands, s)
 						}
 					}
@@ -548,7 +629,7 @@ func (g *G) genPipeline(name string, callables []sig) (*Pipeline, sig) {
 		if g.o.Disabled && g.r.Intn(4) == 0 {
 			var bools []src
 			for _, s := range srcs {
-				if s.T.K == "bool" && len(s.E.Path) == 0 {
+				if s.T.K == "bool" && len(s.E.Path) == 0 && !s.Nullable {
 					bools = append(bools, s)
 				}
 			}
@@ -561,6 +642,9 @@ func (g *G) genPipeline(name string, callables []sig) (*Pipeline, sig) {
 		p.Calls = append(p.Calls, c)
 		if c.Mapped != "" || callee.HasMap {
 			me.HasMap = true
+		}
+		if c.Mapped == "map" || callee.HasKeyedMap {
+			me.HasKeyedMap = true
 		}
 		if callee.ConstOuts {
 			me.ConstOuts = true // conservatively: it may return the callee's constant
@@ -575,13 +659,50 @@ func (g *G) genPipeline(name string, callables []sig) (*Pipeline, sig) {
 				anyTaint = true
 			}
 		}
-		noSplit := c.Disabled != nil && !callee.IsStage
-		whole := src{&Exp{K: "ref", Src: c.ID}, wrapTy(TStruct(callee.Name), c.Mapped), anyTaint, noSplit}
+		noSplit := false // maps over outputs of run-time-disabled calls: repaired (corpus/regress/map_over_output_of_runtime_disabled_*)
+		// which inputs of this pipeline does the call depend on
+		callParams := map[string]bool{}
+		bindParams := map[string]map[string]bool{}
+		for _, b := range c.Binds {
+			bp := expParams(b.E, srcs)
+			bindParams[b.Param] = bp
+			for k := range bp {
+				callParams[k] = true
+			}
+		}
+		for k := range expParams(c.Disabled, srcs) {
+			callParams[k] = true
+		}
+		// does every stage inside this call depend on input f of the pipeline
+		for _, f := range p.Ins {
+			dep := false
+			if callee.IsStage {
+				dep = callParams[f.Name]
+			} else {
+				for q, all := range callee.AllDep {
+					if all && bindParams[q][f.Name] {
+						dep = true
+					}
+				}
+			}
+			if !dep {
+				allDepBroken[f.Name] = true
+			}
+		}
+		anyNullable := c.Disabled != nil
+		for _, o := range callee.Outs {
+			if callee.NullableOuts[o.Name] {
+				anyNullable = true
+			}
+		}
+		whole := src{E: &Exp{K: "ref", Src: c.ID}, T: wrapTy(TStruct(callee.Name), c.Mapped), Tainted: anyTaint, NoSplit: noSplit,
+			Nullable: anyNullable, Params: callParams}
 		srcs = append(srcs, whole)
 		for _, o := range callee.Outs {
 			srcs = append(srcs, g.withProjections(
-				src{&Exp{K: "ref", Src: c.ID, Out: o.Name}, wrapTy(o.T, c.Mapped),
-					c.Mapped != "" || callee.TaintedOuts[o.Name], noSplit}, 1)...)
+				src{E: &Exp{K: "ref", Src: c.ID, Out: o.Name}, T: wrapTy(o.T, c.Mapped),
+					Tainted: c.Mapped != "" || callee.TaintedOuts[o.Name], NoSplit: noSplit,
+					Nullable: c.Disabled != nil || callee.NullableOuts[o.Name], Params: callParams}, 1)...)
 		}
 	}
 	// outputs: bound to available sources, or literals
@@ -599,6 +720,7 @@ func (g *G) genPipeline(name string, callables []sig) (*Pipeline, sig) {
 		}
 		name := fmt.Sprintf("r%d", i)
 		me.TaintedOuts[name] = tainted
+		me.NullableOuts[name] = expNullable(e, srcs)
 		if !hasAnyRef(e) {
 			me.ConstOuts = true
 		}
@@ -624,6 +746,14 @@ func (g *G) genPipeline(name string, callables []sig) (*Pipeline, sig) {
 	p.Ins = ins
 	g.structs[name] = p.Outs
 	me.Ins, me.Outs = p.Ins, p.Outs
+	me.AllDep = map[string]bool{}
+	for _, f := range p.Ins {
+		ok := !allDepBroken[f.Name]
+		if hasPf && !(pfUses != nil && pfUses.K == "ref" && pfUses.Out == f.Name) {
+			ok = false // the preflight stage does not depend on it
+		}
+		me.AllDep[f.Name] = ok
+	}
 	return p, me
 }
 
@@ -636,6 +766,66 @@ func hasAnyRef(e *Exp) bool {
 	}
 	for _, x := range e.Items {
 		if hasAnyRef(x) {
+			return true
+		}
+	}
+	return false
+}
+
+// expParams: the pipeline inputs an expression depends on (through the
+// sources it references).
+func expParams(e *Exp, srcs []src) map[string]bool {
+	out := map[string]bool{}
+	var walk func(e *Exp)
+	walk = func(e *Exp) {
+		if e == nil {
+			return
+		}
+		if e.K == "ref" {
+			if e.Src == "self" {
+				out[e.Out] = true
+				return
+			}
+			for _, s := range srcs {
+				if s.E.Src == e.Src && (s.E.Out == e.Out || s.E.Out == "") {
+					for k := range s.Params {
+						out[k] = true
+					}
+				}
+			}
+			return
+		}
+		for _, x := range e.Items {
+			walk(x)
+		}
+	}
+	walk(e)
+	return out
+}
+
+// baseBool: bool, or a collection of bools.
+func baseBool(t *Ty) bool {
+	for t != nil && (t.K == "arr" || t.K == "tmap") {
+		t = t.Elem
+	}
+	return t != nil && t.K == "bool"
+}
+
+// expNullable: does the expression mention a nullable source?
+func expNullable(e *Exp, srcs []src) bool {
+	if e == nil {
+		return false
+	}
+	if e.K == "ref" {
+		for _, s := range srcs {
+			if s.Nullable && s.E.Src == e.Src && (s.E.Out == e.Out || s.E.Out == "") {
+				return true
+			}
+		}
+		return false
+	}
+	for _, x := range e.Items {
+		if expNullable(x, srcs) {
 			return true
 		}
 	}
@@ -674,7 +864,18 @@ func (g *G) Gen(stageCmd string) *Program {
 	for i := 0; i < nst; i++ {
 		s := g.genStage(fmt.Sprintf("ST%d", i))
 		p.Stages = append(p.Stages, s)
-		callables = append(callables, sig{Name: s.Name, Ins: s.Ins, Outs: s.Outs, IsStage: true})
+		nullable := map[string]bool{}
+		for _, o := range s.Outs {
+			// only the flag output is a literal bool whatever the arguments
+			nullable[o.Name] = o.Name != "flag"
+		}
+		callables = append(callables, sig{Name: s.Name, Ins: s.Ins, Outs: s.Outs, IsStage: true, NullableOuts: nullable})
+	}
+	if g.o.Preflight && g.r.Bool() {
+		pf := &Stage{Name: "PFCHECK", Ins: []Field{{"x", TInt}}, MainOuts: map[string]*SExp{}, ChunkOutsB: map[string]*SExp{}}
+		p.Stages = append(p.Stages, pf)
+		g.structs[pf.Name] = nil
+		g.pfStage = pf.Name
 	}
 	depth := 1 + g.r.Intn(g.o.MaxDepth)
 	var last *Pipeline
@@ -732,8 +933,8 @@ func (g *G) addNarrowingPair(p *Program, top *Pipeline) {
 	}
 	nested := hx.JArr([]hx.JV{hx.JArr(elems()), hx.JNull(), hx.JArr(elems())})
 	src := &Stage{Name: "NARROW_SRC",
-		Outs:     []Field{{"o", TArr(s2)}, {"m", TMap(s2)}, {"oo", TArr(TArr(s2))}},
-		MainOuts: map[string]*SExp{"o": {K: "lit", Lit: arr}, "m": {K: "lit", Lit: hx.JObj(kvs)}, "oo": {K: "lit", Lit: nested}},
+		Outs:       []Field{{"o", TArr(s2)}, {"m", TMap(s2)}, {"oo", TArr(TArr(s2))}},
+		MainOuts:   map[string]*SExp{"o": {K: "lit", Lit: arr}, "m": {K: "lit", Lit: hx.JObj(kvs)}, "oo": {K: "lit", Lit: nested}},
 		ChunkOutsB: map[string]*SExp{}}
 	dst := &Stage{Name: "NARROW_DST",
 		Ins:      []Field{{"v", TArr(s1)}, {"m", TMap(s1)}, {"vv", TArr(TArr(s1))}},
